@@ -134,6 +134,27 @@ func runC23(c *core.Ctx) {
 			al, isAl := an.Unwrap(arg).(*ssa.Alloc)
 			okReq := isAl && strings.HasSuffix(al.Type().String(), "ExecuteRequest")
 			c.Result(okReq, "C23.b", "DOM", "runQueue:same-request-resent", c.P.Pos(execs[0].Pos()), "every attempt sends the request built from the received batch", "the retried request is not the one built from the received batch", nil)
+			// every attempt can succeed however long the batch has already waited: the
+			// context handed to Execute has no deadline, or is created afresh between
+			// two attempts (a deadline set once per batch makes every retry after it
+			// fail at once, and the single consumer never moves on)
+			ctxArg := an.Unwrap(execs[0].Common().Args[1])
+			okCtx := false
+			switch x := ctxArg.(type) {
+			case *ssa.Call:
+				okCtx = an.IsCall(x, "context.Background", "context.TODO")
+			case *ssa.Extract:
+				if mk, isCall := x.Tuple.(*ssa.Call); isCall && strings.HasPrefix(an.CalleeID(mk), "context.With") {
+					ex := execs[0].(ssa.Instruction)
+					stale := an.Ungated(an.CutSpec{Fn: fn, Start: ex, NoLift: true,
+						GateInstr: func(in ssa.Instruction) bool { return in == ssa.Instruction(mk) },
+						Sink:      func(in ssa.Instruction) bool { return in == ex }})
+					okCtx = len(stale) == 0
+				}
+			}
+			c.Result(okCtx, "C23.b", "CONST", "runQueue:attempt-context-fresh", c.P.Pos(execs[0].Pos()),
+				"each attempt runs under a context without a deadline inherited from earlier attempts",
+				"the context handed to proxy.Execute in runQueue's retry loop is created outside the loop (or is not a background context): once its deadline passes every retry fails immediately, so a batch that outlives it — and every queued write behind it — is never applied", nil)
 			// exits from the loop other than acknowledgement are returns guarded by closeCh
 			var rets []ssa.Instruction
 			an.Instrs(fn, func(in ssa.Instruction) {
